@@ -151,7 +151,10 @@ class Check(PropertyCheck):
             "#fragment, a second ?, empty, *, %2F, non-ASCII, surrogate-escaped bytes) on which the query and path_components views are read "
             "against an independent reading of the target and every view (query, path_components, cookies, urlencoded_form, multipart_form) is "
             "written back with its current value, comparing the target's meaning (segments, parameters, query pairs, fragment), host, port, "
-            "scheme, authority and Host header before and after; the same targets under set-then-get of generated pairs. "
+            "scheme, authority and Host header before and after; the same targets under set-then-get of generated pairs; form views start from "
+            "messages whose content-type carries parameters (charset absent/utf-8/latin-1/utf-16le/utf-16be/utf-32le/cp037/cp500/unknown/quoted, "
+            "extra and upper-case parameter names, non-form types) with existing bodies written consistently or inconsistently with them, both "
+            "for set-then-get and for write-back of the existing view (formwb); multipart content types with charset/extra/upper-case parameters. "
             "distinct = distinct case; non-trivial = non-empty list/header.")
     budget = {"quick": 8000, "thorough": 250000}
     time_budget = {"quick": 30, "thorough": 420}
@@ -298,6 +301,14 @@ class Check(PropertyCheck):
         return http.Response(b"HTTP/1.1", 200, b"OK", hs, b"", None, 0, 0)
 
     @staticmethod
+    def _text_seen_by_setter(r):
+        """the existing body as _set_urlencoded_form reads it for its similar_to style: decoded after the content-type has been reset to the
+        bare form type (classification data for F-C34e only)"""
+        c = r.copy()
+        c.headers["content-type"] = "application/x-www-form-urlencoded"
+        return c.get_text(strict=False)
+
+    @staticmethod
     def _ckview(m):
         return [[a, b] for a, b in m.cookies.fields]
 
@@ -383,14 +394,14 @@ class Check(PropertyCheck):
             hd = [] if case["ct"] is None else [(b"content-type", case["ct"].encode())]
             r = self._req(headers=hd, content=case["body0"].encode(case.get("benc") or "utf-8"))
             v0 = [list(p) for p in r.urlencoded_form.fields]
-            text0 = r.get_text(strict=False)
+            text0 = self._text_seen_by_setter(r)
             r.urlencoded_form = r.urlencoded_form.fields
             return {"v0": v0, "text0": text0, "v1": [list(p) for p in r.urlencoded_form.fields], "ct2": r.headers.get("content-type"),
                     "body_hex": hx(r.raw_content)}
         if k == "form":
             hd = [] if case["ct"] is None else [(b"content-type", case["ct"].encode())]
             r = self._req(headers=hd, content=b"" if case["body0"] is None else case["body0"].encode(case.get("benc") or "utf-8"))
-            text0 = r.get_text(strict=False)
+            text0 = self._text_seen_by_setter(r)
             r.urlencoded_form = [tuple(p) for p in case["pairs"]]
             back = [list(p) for p in r.urlencoded_form.fields]
             b1 = r.raw_content
